@@ -220,14 +220,14 @@ def rule_mapping(report, prog):
     # tt4 sites are checked by C12-R3; count them here for the table
     f = prog.func('nfc.tag.tt4.IsoDepInitiator.exchange')
     tr = [t for t in walk_no_nested(f.node) if isinstance(t, ast.Try)]
-    okk = len(tr) == 2
+    okk = len(tr) >= 2
     for t in tr:
         hm = {}
         for h in t.handlers:
             codes = sorted(set(norm(r.exc.args[0]) for r in ast.walk(h) if isinstance(r, ast.Raise) and isinstance(r.exc, ast.Call) and r.exc.args))
             hm[norm(h.type)] = codes
         okk = okk and hm == {k: [v] for k, v in want.items()}
-    report.check(okk, 'C16-R2', key(f.qname, 'both ISO-DEP retry loops map the three error classes'), f.loc(), 'ISO-DEP error mapping changed')
+    report.check(okk, 'C16-R2', key(f.qname, 'every ISO-DEP exchange handler maps the three error classes'), f.loc(), 'ISO-DEP error mapping changed')
     # reason code constants
     m = prog.modules['nfc.tag']
     vals = {k: try_const(m.names[k][1]) for k in ('TIMEOUT_ERROR', 'RECEIVE_ERROR', 'PROTOCOL_ERROR') if k in m.names and m.names[k][0] == 'expr'}
@@ -375,6 +375,25 @@ NLEN_ANCHORS = [('nfc.tag.tt4.Type4Tag.NDEF._read_ndef_data', lambda f: any(isin
                 ('nfc.tag.tt4.Type4Tag.NDEF._read_ndef_data', "lfmt = '>I' if self._nlen_size == 4 else '>H'"),
                 ('nfc.tag.tt4.Type4Tag.NDEF._discover_ndef', _nlen_size_domain)]
 triage.add('C16', 'C16-R1', key('struct.error', 'raised in nfc.tag.tt4.Type4Tag.NDEF._read_ndef_data', 'unpack(lfmt, nlen)'), NLEN_REASON, NLEN_ANCHORS)
+
+
+def _isodep_loop_runs(f):
+    """IsoDepInitiator.exchange binds `data` in a loop over range(0, len(command), self.miu): it runs at least once for a non-empty command."""
+    return any(isinstance(l, ast.For) and norm(l.iter) == 'range(0, len(command), self.miu)' for l in walk_no_nested(f.node))
+
+
+def _apdu_has_header(f):
+    """send_apdu starts the command with the four header bytes and only appends to it."""
+    st = [s for s in walk_no_nested(f.node) if isinstance(s, ast.Assign) and norm(s.targets[0]) == 'apdu']
+    return bool(st) and norm(st[0].value) == 'bytearray([cla, ins, p1, p2])' and \
+        all(norm(s.value).startswith('self.transceive(') for s in st[1:])
+
+
+ISODEP_EMPTY_REASON = ('the read follows the block loop `for offset in range(0, len(command), self.miu)`, which binds and length-checks data on every '
+                       'iteration; it is skipped only for an empty command, and send_apdu always sends the four header bytes (an empty command is an '
+                       'argument error of an application calling transceive() directly, not something a tag can cause)')
+ISODEP_EMPTY_ANCHORS = [('nfc.tag.tt4.IsoDepInitiator.exchange', _isodep_loop_runs), ('nfc.tag.tt4.Type4Tag.send_apdu', _apdu_has_header)]
+triage.add('C16', 'C16-R1', key('IndexError', 'raised in nfc.tag.tt4.IsoDepInitiator.exchange', 'data[0] in `while bool(data[0] & 16)`'), ISODEP_EMPTY_REASON, ISODEP_EMPTY_ANCHORS)
 
 MUTANTS = [
     ('tt2-protocol-mapping-dropped', 'nfc.tag.tt2', """            if type(error) is nfc.clf.ProtocolError:
